@@ -106,7 +106,7 @@ func (p *Prog) NewExec(pol func(*ssa.Function) Policy) *Exec {
 	if pol == nil {
 		pol = p.DefaultPolicy
 	}
-	return &Exec{fset: p.Fset, Policy: pol, MaxDepth: 8, MaxPaths: 200000}
+	return &Exec{fset: p.Fset, dir: p.Dir, Policy: pol, MaxDepth: 8, MaxPaths: 200000}
 }
 
 // RadixPolicy: for rules that look inside the origin tree's operations; the
